@@ -115,7 +115,7 @@ def injected_faults(sc, seed, tier, only=None):
                 viol.append(dict(ident, why="the run did not end after the injected fault")); continue
             if raw["rc"] != 0:
                 stats["exit_nonzero"] += 1
-                if raw["nerr"] == 0 and not raw["refused"]:
+                if raw["nerr"] == 0 and not raw["refused"] and not raw.get("fatal"):
                     viol.append(dict(ident, why="non-zero exit status %s but no error object in the --json output" % raw["rc"]))
             else:
                 for f in c01.c01_oracle(fl, raw, 0):
